@@ -165,7 +165,7 @@ func c12History(c *rigChild, st rigStep, r *rigResult) {
 	pending := filepath.Join(c.dir, "irchist.pending")
 
 	rng := rand.New(rand.NewSource(p.Seed))
-	g := &vGen{r: rng, ts: time.Now().Unix(), length: p.Len, wild: p.Wild}
+	g := &vGen{r: rng, ts: time.Now().Unix(), length: p.Len, wild: p.Wild, realtime: true}
 	sessions := map[uint64]*c12Sess{}
 	var order []uint64
 	exists := func(proj map[string]interface{}, id uint64) bool {
